@@ -10,5 +10,6 @@ export MEASURED_REPO=${MEASURED_REPO:-/repo}
 /venv/bin/python translate/gen_caches.py
 /venv/bin/python translate/gen_family.py
 /venv/bin/python translate/gen_symbols.py
+/venv/bin/python translate/gen_ctor.py
 cd lean
 lake build Model Proofs Props Obligations driver 2>&1 | grep -v '^trace' | tail -5
